@@ -76,6 +76,7 @@ static void traj_case(Rng &r, const std::string &fmt) {
   if (ck == 4 && (fmt == "xyz" || fmt == "pdb")) ck = 1;
   if (ck == 2 && (fmt == "xyz" || fmt == "pdb")) ck = 1;   // |x| < 10 nm keeps the %10.5f / %8.3f Angstrom fields apart
   std::vector<Frame> frames(F);
+  int tk = r.coin() ? 1 + (int)r.below(6) : 0;
   for (int k = 0; k < F; k++) {
     Frame &f = frames[k];
     f.box = M::Zero();
@@ -83,6 +84,8 @@ static void traj_case(Rng &r, const std::string &fmt) {
     f.box(0, 0) = L; f.box(1, 1) = bk == 2 ? L : L * (0.8 + 0.4 * r.unit()); f.box(2, 2) = bk == 2 ? L : L * (0.8 + 0.4 * r.unit());
     if (bk == 1) { f.box(0, 1) = (r.unit() - 0.5) * L * 0.5; f.box(0, 2) = (r.unit() - 0.5) * L * 0.5; f.box(1, 2) = (r.unit() - 0.5) * L * 0.5; }
     f.time = k * 0.5; f.step = 100 * k;
+    // half of the runs: step numbers from 100 on and a time step from a list with round and non-round values (time = step * dt)
+    if (tk > 0) { static const double dts[] = {0.005, 0.002, 1.0 / 3000.0, 0.000123456789, 1e-5, 0.25}; f.step = 100 * (k + 1); f.time = (double)f.step * dts[tk - 1]; }
     for (int i = 0; i < n; i++) {
       f.pos.push_back(V(coord(r, ck), coord(r, ck), coord(r, ck)));
       f.vel.push_back(V(coord(r, 0) * 0.1, coord(r, 0) * 0.1, coord(r, 0) * 0.1));
